@@ -57,7 +57,8 @@ _LATER = {
            'binary seed (+-1, +2, 00, ff; shorter and with data behind) and of the first of two coalesced units; units '
            'whose 24-bit length is at its maximum.',
     'C04': ' Equal-length handshake twins, one message per record, senders that edit items in place, spec senders '
-           '(SSL 2.0 long header, LDAP BER forms, OpenVPN key ids), units the library composes but does not accept whole.',
+           '(SSL 2.0 long header, LDAP BER forms, OpenVPN key ids), units the library composes but does not accept whole, '
+           'applications registering their own message parsers between reads.',
     'C12': ' Position operands of wrong type or absurd size, one-shot iterables and wrong-valued items are injected as '
            'faults; declared bounds are compared with a committed reference table.',
     'C13': ' Complete sweeps: every accepted input of every class observed around compose(), with fields broken and '
